@@ -22,10 +22,9 @@ def imp():
             shutil.copy(os.path.join(d, 'patch.orig.diff'), os.path.join(out, 'patch.orig.diff'))
         json.dump(meta, open(os.path.join(out, 'meta.json'), 'w'), indent=1)
         print('imported', sid)
-def run(ids):
-    for out in sorted(glob.glob(os.path.join(V, 'seeded', '*'))):
+def run_one(out):
+    if True:
         sid = os.path.basename(out)
-        if ids and sid not in ids: continue
         prop = sid.split('-')[0]
         props = EXTRA.get(sid, [prop])
         p = subprocess.run([os.path.join(V, 'tools', 'seedrun.py'), out, prop, '--props', ','.join(props)], stdout=subprocess.PIPE, stderr=subprocess.STDOUT, text=True)
@@ -39,6 +38,12 @@ def run(ids):
                                 'checks': {k: {'rc': v['rc'], 'wall_s': v['wall'], 'first_lines': v['lines'][:3]} for k, v in r.get('checks', {}).items()}, 'error': r.get('error')}
         json.dump(meta, open(os.path.join(out, 'meta.json'), 'w'), indent=1)
         print(sid, 'confirmed', r.get('confirmed'), 'caught-by', [k for k, v in r.get('checks', {}).items() if v['rc'] == 1], 'missed-by', [k for k, v in r.get('checks', {}).items() if v['rc'] != 1], flush=True)
+
+def run(ids, jobs=4):
+    from concurrent.futures import ThreadPoolExecutor
+    outs = [o for o in sorted(glob.glob(os.path.join(V, 'seeded', '*'))) if not ids or os.path.basename(o) in ids]
+    with ThreadPoolExecutor(max_workers=jobs) as ex:
+        list(ex.map(run_one, outs))
 if __name__ == '__main__':
     if sys.argv[1] == 'import': imp()
     else: run(sys.argv[2:])
